@@ -434,3 +434,23 @@ func vResStr(res []VectorResult) string {
 	}
 	return sb.String()
 }
+
+// vStructuredVecs returns n pairwise distinct, non-zero vectors on a small integer
+// lattice (exact arithmetic for l2 / l2^2), deterministic.
+func vStructuredVecs(dim, n int) [][]float32 {
+	out := make([][]float32, n)
+	for i := 0; i < n; i++ {
+		v := make([]float32, dim)
+		x := i + 1
+		for j := 0; j < dim; j++ {
+			v[j] = float32((x%9)-4) + float32(j%2)
+			x = x/9 + j + 1
+		}
+		v[0] += float32(i/9) * 9 // make them pairwise distinct for any n
+		if vIsZero(v) {
+			v[0] = 0.5
+		}
+		out[i] = v
+	}
+	return out
+}
